@@ -326,6 +326,21 @@ def exact_text(t: T) -> T:
     return t
 
 
+def strip_copies(t: T) -> T:
+    """value-preserving wrappers removed: float(x), np.array(x) / np.asarray
+    / np.copy(x) / x.copy() without further arguments"""
+    def rw(z: T):
+        if is_call_to(z, "builtins.float", "numpy.array", "numpy.asarray",
+                      "numpy.copy", "numpy.float64") and \
+                len(z.args[1]) == 1 and not z.args[2] and \
+                z.args[1][0].op not in ("list", "tuple", "comp"):
+            return z.args[1][0]
+        if is_call_to(z, ".copy") and not z.args[1] and not z.args[2]:
+            return tm.method_recv(z)
+        return None
+    return t.map(rw)
+
+
 def strip_asarray(t: T) -> T:
     """np.asarray(a) / np.asarray(a, dtype=float) / np.asanyarray(a) hold the
     values of a: rules about *which* values are combined look through them"""
